@@ -251,6 +251,8 @@ func main() {
 		cmdScaleSem(os.Args[2:])
 	case "sem-file":
 		cmdSemFile(os.Args[2:])
+	case "sem-gen":
+		cmdSemGen(os.Args[2:])
 	case "conc":
 		cmdConc(os.Args[2:])
 	case "store-replay":
